@@ -32,6 +32,19 @@ summary = {}
 
 PROBE_ROOT = '/nonexistent-c16/www'
 ELEMENTS = ['a', 'b.c', '..', '.', '', 'a/b', 'x\x00y', '...', '..a', 'b\\c']
+REG_NAMES = ['static', 'static/', 'a/b', 'http://cdn.example.com/s', '//cdn.example.com/x/']
+REG_SPECS = ['c16probepkg:static', 'c16probepkg:static/', 'c16probepkg:', '/abs/dir', '/abs/dir/']
+BUSTER_SPECS = ['p:a', 'p:a/b', 'p:c/']
+GEN_CONFIGS = [
+    ([('static', 'c16probepkg:static'), ('other', 'c16probepkg:static2')], []),
+    ([('static', 'c16probepkg:static'), ('static', '/abs/dir')], []),
+    ([('http://cdn.example.com/s', 'c16probepkg:static'), ('st', 'c16probepkg:static/sub')], []),
+    ([('static', 'c16probepkg:static')], [['c16probepkg:static', 'q', False, 'x', 'tok', []]]),
+    ([('static', 'c16probepkg:static')], [['c16probepkg:static', 'q', False, 'x', 'tok', []], ['c16probepkg:static/sub', 'm', False, '', '', [['a.css', 'a-123.css']]]]),
+    ([('static', 'c16probepkg:static')], [['c16probepkg:', 'm', True, '', '', [['sub/a.css', 'sub/a-9.css']]], ['c16probepkg:static', 'q', False, 'v', 'a b', []]]),
+]
+GEN_ASSETS = ['c16probepkg:static/sub/a.css', 'c16probepkg:static2/x y.txt', 'c16probepkg:static', '/abs/dir/\u00fc', 'c16probepkg:staticx/y']
+GEN_QUERIES = [None, [True, [['a', '1'], ['x', '0']]], [False, [['x', '0'], ['a', '1']]]]
 PATH_INFOS = ['/a', '/a/b.c', '/', '', '/a/../b', '//a//./b/', '/../../x', '/%2e%2e/x', '/a\\b', '/..\\..\\x', '/a\x00',
               '/\xc3\xbc', '/d/\xe6\x97\xa5', '/\xc0\xae\xc0\xae/x', '/\xc3', '/...']
 
@@ -145,6 +158,62 @@ def _probe():
                 kind = 'none' if r is None else 'path' if r == ospfx + leaf else 'other'
                 fr.append([is_pkg, there, isdir, kind])
         out['find_resource'] = fr
+
+        # --- the configuration / URL side: StaticURLInfo.add, add_cache_buster, generate
+        from pyramid.config import Configurator
+        from pyramid.interfaces import IStaticURLInfo
+        from pyramid.static import QueryStringConstantCacheBuster, ManifestCacheBuster
+        os.makedirs(os.path.join(tmp, 'c16probepkg', 'static'))
+        open(os.path.join(tmp, 'c16probepkg', '__init__.py'), 'w').close()
+
+        def regs_of(adds):
+            cfg = Configurator()
+            for name, spec in adds:
+                cfg.add_static_view(name, spec)
+                cfg.commit()
+            info = cfg.registry.getUtility(IStaticURLInfo)
+            return cfg, [[u, sp, rn or ''] for u, sp, rn in info.registrations]
+        single = [(n, sp) for n in REG_NAMES for sp in REG_SPECS]
+        seqs = [[a] for a in single] + [[a, b] for a in single[::3] for b in single[1::4]]
+        out['register'] = []
+        for adds in seqs:
+            out['register'].append([[list(a) for a in adds], regs_of(adds)[1]])
+        # cache-buster insertion order: every sequence of <= 3 insertions over 3 specs x {implicit, explicit}
+        items = [(sp, ex) for sp in BUSTER_SPECS for ex in (False, True)]
+        out['buster_order'] = []
+        for n in range(4):
+            for seq in itertools.product(items, repeat=n):
+                cfg = Configurator()
+                for sp, ex in seq:
+                    cfg.add_cache_buster(sp, QueryStringConstantCacheBuster('t'), explicit=ex)
+                    cfg.commit()
+                info = cfg.registry.queryUtility(IStaticURLInfo)
+                out['buster_order'].append([[list(x) for x in seq], [[sp, ex] for sp, cb, ex in (info.cache_busters if info else [])]])
+
+        class FixedManifest(ManifestCacheBuster):
+            def __init__(self, m):
+                self._m = m
+
+            @property
+            def manifest(self):
+                return self._m
+        # generate: static_path through the real request, for every probe configuration x asset x query
+        out['generate'] = []
+        for adds, busters in GEN_CONFIGS:
+            cfg, _ = regs_of(adds)
+            for sp, kind, ex, param, token, mf in busters:
+                cfg.add_cache_buster(sp, QueryStringConstantCacheBuster(token, param=param) if kind == 'q' else FixedManifest(dict(mf)), explicit=ex)
+                cfg.commit()
+            for asset in GEN_ASSETS:
+                for q in GEN_QUERIES:
+                    req = request('/')
+                    req.registry = cfg.registry
+                    kw = {} if q is None else {'_query': dict(q[1]) if q[0] else [tuple(x) for x in q[1]]}
+                    try:
+                        r = ['url', req.static_path(asset, **kw)]
+                    except ValueError as e:
+                        r = ['nostatic' if 'No static URL definition' in str(e) else 'error', '']
+                    out['generate'].append([[list(a) for a in adds], busters, asset, q, r[0], r[1]])
         out['status'] = 'ok'
     except BaseException as e:      # noqa — fail closed
         out = {'status': 'unknown: %s: %s' % (type(e).__name__, str(e)[:200])}
@@ -166,7 +235,7 @@ def facts(src_root):
         want = os.path.realpath(os.path.join(src_root, 'pyramid', 'static.py'))
         if f.get('module') != want:
             return {'status': 'unknown: the probe imported %s, not the tree under test' % f.get('module')}
-        for k in ('chars', 'elems', 'secure', 'resource_name', 'path_info', 'find_resource'):
+        for k in ('chars', 'elems', 'secure', 'resource_name', 'path_info', 'find_resource', 'register', 'buster_order', 'generate'):
             if not isinstance(f.get(k), list):
                 return {'status': 'unknown: probe answer lacks %s' % k}
     return f
@@ -206,7 +275,7 @@ def generate(src_root):
     ok = f.get('status') == 'ok'
     summary.clear()
     summary.update({'status': f.get('status'), 'chars': f.get('chars'), 'elems': f.get('elems'),
-                    'entries': {k: len(f[k]) for k in ('secure', 'resource_name', 'path_info', 'find_resource')} if ok else None})
+                    'entries': {k: len(f[k]) for k in ('secure', 'resource_name', 'path_info', 'find_resource', 'register', 'buster_order', 'generate')} if ok else None})
     g = (lambda k: f[k]) if ok else (lambda k: [])
     L = ['/- GENERATED by extract/c16.py by probing the code of src/pyramid/static.py — do not edit. -/',
          'namespace Pyr.Static.Gen', '',
@@ -230,6 +299,27 @@ def generate(src_root):
          '/-- `(package root?, exists, is a directory, what find_resource_path returned: "path" = the OS path of the name)` -/',
          'def findResourceProbe : List (Bool × Bool × Bool × String) := [',
          ',\n'.join('  (%s, %s, %s, %s)' % (_lean_bool(p), _lean_bool(t), _lean_bool(d), _lean_str(k)) for p, t, d, k in g('find_resource')), ']', '',
+         '/-- `(add_static_view calls (name, spec), StaticURLInfo.registrations (url or none, spec, route name or ""))` -/',
+         'def registerProbe : List (List (List Char × List Char) × List (Option (List Char) × List Char × List Char)) := [',
+         ',\n'.join('  ([%s], [%s])' % (', '.join('(%s, %s)' % (_lean_text(n), _lean_text(sp)) for n, sp in adds),
+                                        ', '.join('(%s, %s, %s)' % (_lean_opt(u), _lean_text(sp), _lean_text(rn)) for u, sp, rn in regs))
+                   for adds, regs in g('register')), ']', '',
+         '/-- `(add_cache_buster calls (spec, explicit), StaticURLInfo.cache_busters (spec, explicit))` -/',
+         'def busterOrderProbe : List (List (List Char × Bool) × List (List Char × Bool)) := [',
+         ',\n'.join('  ([%s], [%s])' % (', '.join('(%s, %s)' % (_lean_text(sp), _lean_bool(ex)) for sp, ex in seq),
+                                        ', '.join('(%s, %s)' % (_lean_text(sp), _lean_bool(ex)) for sp, ex in res))
+                   for seq, res in g('buster_order')), ']', '',
+         '/-- `(adds, busters (spec, manifest?, explicit, param, token, manifest), asset, query (none | (dict?, pairs)), outcome, URL)`',
+         'of `request.static_path(asset, _query=…)` on the default request -/',
+         'def generateProbe : List (List (List Char × List Char) × List (List Char × Bool × Bool × List Char × List Char × List (List Char × List Char)) ×',
+         '    List Char × Option (Bool × List (List Char × List Char)) × String × List Char) := [',
+         ',\n'.join('  ([%s], [%s], %s, %s, %s, %s)' % (
+             ', '.join('(%s, %s)' % (_lean_text(n), _lean_text(sp)) for n, sp in adds),
+             ', '.join('(%s, %s, %s, %s, %s, [%s])' % (_lean_text(sp), _lean_bool(k == 'm'), _lean_bool(ex), _lean_text(pa), _lean_text(tk),
+                                                     ', '.join('(%s, %s)' % (_lean_text(a), _lean_text(b)) for a, b in mf)) for sp, k, ex, pa, tk, mf in busters),
+             _lean_text(asset),
+             'none' if q is None else '(some (%s, [%s]))' % (_lean_bool(q[0]), ', '.join('(%s, %s)' % (_lean_text(a), _lean_text(b)) for a, b in q[1])),
+             _lean_str(kind), _lean_text(url)) for adds, busters, asset, q, kind, url in g('generate')), ']', '',
          'end Pyr.Static.Gen', '']
     return {'PyramidModel/Gen/C16.lean': '\n'.join(L)}
 
